@@ -211,6 +211,16 @@ func (h *RealtimeHandler) HandleParticipantJoin(ctx context.Context, handleFrame
 	}
 
 	if h.currentParticipant != nil {
+		// A measurement that is still running ends with the session it was
+		// started in: its request is answered too.
+		if sl := h.currentParticipant.SignedLatency; sl != nil && sl.PingRequests != nil && sl.Iteration > 0 {
+			respond.Send(&hagallpb.ErrorResponse{
+				Type:      hagallpb.MsgType_MSG_TYPE_ERROR_RESPONSE,
+				Timestamp: timestamppb.Now(),
+				RequestId: sl.RequestID,
+				Code:      hagallpb.ErrorCode_ERROR_CODE_CONFLICT,
+			})
+		}
 		h.leaveSession()
 	}
 
